@@ -1,3 +1,63 @@
 package main
 
-func cmdSelftest() int { return 0 }
+import (
+	"fmt"
+	"go/ast"
+	"go/parser"
+	"go/token"
+	"os"
+	"path/filepath"
+	"strconv"
+	"strings"
+
+	vexec "verif/engine/exec"
+)
+
+// cmdSelftest: intrinsic self-test (DESIGN section 3): the string and regex summaries are evaluated by
+// constant folding on a corpus - every string literal of /repo's test files, template and header shapes,
+// seeded random ASCII strings - and compared with the real standard library.
+func cmdSelftest() int {
+	ld, err := loadRepo()
+	if err != nil {
+		fmt.Println("selftest: cannot load /repo:", err)
+		return 2
+	}
+	e, err := vexec.New(ld.prog, ld.pkg, "z3-new", 60000)
+	if err != nil {
+		fmt.Println("selftest:", err)
+		return 2
+	}
+	defer e.Close()
+	var corpus []string
+	files, _ := filepath.Glob(filepath.Join(repoDir, "*_test.go"))
+	fset := token.NewFileSet()
+	for _, f := range files {
+		af, err := parser.ParseFile(fset, f, nil, 0)
+		if err != nil {
+			continue
+		}
+		ast.Inspect(af, func(n ast.Node) bool {
+			if bl, ok := n.(*ast.BasicLit); ok && bl.Kind == token.STRING {
+				if s, err := strconv.Unquote(bl.Value); err == nil && len(s) <= 24 {
+					corpus = append(corpus, s)
+				}
+			}
+			return true
+		})
+	}
+	corpus = append(corpus, "", "/", "//", "/a/", "/a//b", "a/b", "/t/a/b/", "*/*", "a/j;q=0.5,a/x", "a/x ; q = 1", "gzip,deflate", "/t/x:go", "/t/ab7ba")
+	patterns := []string{":([A-Za-z]+)$", ":go$", "[0-9]+", "[a-z]+", "[0-9]*", "^/t/([^/]+?)(/.*)?$", "^/a/([^/]+?)/b(/.*)?$", "^(/.*)?$", "^/t/(.*)(/.*)?$",
+		"^(?:[0-9]+)$", "^/([0-9]+)(/.*)?$", "^/a b/([^/]+?)(/.*)?$"}
+	seed := int64(envInt("VERIF_SEED", 1))
+	checks, bad := e.SelfTest(corpus, patterns, seed)
+	for _, b := range bad {
+		fmt.Println("SELFTEST-MISMATCH:", b)
+	}
+	fmt.Printf("selftest: %d comparisons of string/regex summaries against the standard library on %d corpus strings, %d mismatches\n", checks, len(corpus), len(bad))
+	if len(bad) > 0 {
+		return 2
+	}
+	_ = strings.TrimSpace
+	_ = os.Getenv
+	return 0
+}
